@@ -234,9 +234,10 @@ def lengths(tier, seed, k, heavy=0):
         # K-bit small states: the transition-matrix products become hard for the solver
         cap = {2: 17, 3: 4, 4: 2}[heavy] if tier == "quick" else {2: 24, 3: 5, 4: 3}[heavy]
         return [n for n in [0, 1, 2, 3, 4, 5, 7, 15, 16, 17, 24] if n <= cap]
-    if tier == "thorough":
-        return list(range(0, 41))
     base = [0, 1, 2, 3, 7, 15, 16, 17, 31, 33, 40]
+    if tier == "thorough":
+        # every length 0..40 for every third family (rotating with the seed), the 11 boundary lengths for the others
+        return list(range(0, 41)) if (k + seed) % 3 == 0 else base
     # rotate a window so that different seeds visit different lengths, always keep 0,1,16
     rng = random.Random(seed * 131 + k)
     pick = {0, 1, 16} | set(rng.sample(base, 3))
@@ -434,7 +435,7 @@ def main():
     chk = Check("C07", "translation_validation")
     chk.module = "symg.check_c07"
     cases = gen_cases(chk.tier, chk.seed)
-    timeout_s = 150 if chk.tier == "quick" else 600
+    timeout_s = 150 if chk.tier == "quick" else 400
     drv.build()
     results = drv.run_jobs([build_job(c) for c in cases])
     outs = pool_map(analyze, [(c, r, timeout_s) for c, r in zip(cases, results)])
@@ -493,7 +494,7 @@ def main():
                      "inline::empty_state_iterate_inliner::inline_iterate_empty_state", "inline::associative_iterate_inliner::inline_iterate_associative",
                      "inline::exponential_inliner::inline_iterate_small_state (one-bit and K-bit)", "inline::data_structures::{log_depth_sum, prefix_sums_binary_ascent, prefix_sums_sqrt_trick, prefix_sums_segment_tree}",
                      "inline::inline_common::pick_prefix_sum_algorithm"]
-    chk.bounds = dict(lengths="0,1,16 + 3 seed-chosen of {0,1,2,3,7,15,16,17,31,33,40} per family (quick) / every length 0..40 (thorough; 14 lengths for K>=3 small states)",
+    chk.bounds = dict(lengths="0,1,16 + 3 seed-chosen of {0,1,2,3,7,15,16,17,31,33,40} per family (quick) / thorough: every length 0..40 for every third family (rotating with the seed) and the 11 boundary lengths for the others; capped lengths for K>=2 small states and matrix states (see outside_bounds)",
                       modes=list(MODES.keys()), state_kinds="empty; associative (add, mul, xor, and, 2x2 matmul); one-bit (scalar, [2], [2,2]); small state K=1..4 with batch (), (2,), (2,2); general tuple state; nested calls depth<=3; random bodies",
                       families=len({c["fam"] for c in cases}))
     chk.outside = ["vector lengths above 40", "K=2 small states longer than 17 (quick) / 24 (thorough), K=3 longer than 4 / 5 and K=4 longer than 2 / 3 (probed: unknown after 165 s), 2x2 matrix-product states longer than 7: solver does not finish; long lengths are covered with the non-commutative affine-composition body instead", "small states wider than 4 bits (rejected by the inliner)", "bodies declared associative that are not (contract violation; the generator only emits add/mul/xor/and/matmul)"]
